@@ -17,31 +17,32 @@ def _params(h):
     return proj, float(h["CRPIX1"]), float(h["CRPIX2"]), float(cd1), float(cd2), float(h["CRVAL1"]), float(h["CRVAL2"])
 
 
-def _theta_of_R(proj, R):
+def _colat_of_R(proj, R):
+    """native co-latitude gamma = 90deg - theta from the zenithal radius (radians)"""
     if proj == "TAN":
-        return np.arctan2(1.0, R)
+        return np.arctan(R)
     if proj == "SIN":
-        return np.arccos(np.clip(R, -1, 1))
+        return np.arcsin(np.clip(R, -1, 1))
     if proj == "ARC":
-        return np.pi / 2 - R
+        return R
     if proj == "ZEA":
-        return np.pi / 2 - 2 * np.arcsin(np.clip(R / 2, -1, 1))
+        return 2 * np.arcsin(np.clip(R / 2, -1, 1))
     if proj == "STG":
-        return np.pi / 2 - 2 * np.arctan(R / 2)
+        return 2 * np.arctan(R / 2)
     raise ValueError(proj)
 
 
-def _R_of_theta(proj, th):
+def _R_of_colat(proj, g):
     if proj == "TAN":
-        return np.cos(th) / np.sin(th)
+        return np.tan(g)
     if proj == "SIN":
-        return np.cos(th)
+        return np.sin(g)
     if proj == "ARC":
-        return np.pi / 2 - th
+        return g
     if proj == "ZEA":
-        return 2 * np.sin((np.pi / 2 - th) / 2)
+        return 2 * np.sin(g / 2)
     if proj == "STG":
-        return 2 * np.tan((np.pi / 2 - th) / 2)
+        return 2 * np.tan(g / 2)
     raise ValueError(proj)
 
 
@@ -51,13 +52,17 @@ def pix2sky(h, p1, p2):
     y = np.radians(d2 * (np.asarray(p2, dtype=float) - c2))
     R = np.hypot(x, y)
     phi = np.arctan2(x, -y)
-    th = _theta_of_R(proj, R)
+    g = _colat_of_R(proj, R)
     d0 = np.radians(dd0)
-    phip = np.pi
-    sd = np.sin(th) * np.sin(d0) + np.cos(th) * np.cos(d0) * np.cos(phi - phip)
-    dec = np.arcsin(np.clip(sd, -1, 1))
-    ra = np.radians(a0) + np.arctan2(-np.cos(th) * np.sin(phi - phip),
-                                     np.sin(th) * np.cos(d0) - np.cos(th) * np.sin(d0) * np.cos(phi - phip))
+    dphi = phi - np.pi  # phi - LONPOLE
+    A = np.sin(g) * np.cos(dphi)   # cos(theta) cos(phi - phi_p)
+    B = np.sin(g) * np.sin(dphi)   # cos(theta) sin(phi - phi_p)
+    C = np.cos(g)                  # sin(theta)
+    sdec = C * np.sin(d0) + A * np.cos(d0)
+    cs = -B                        # cos(dec) sin(ra - ra0)
+    cc = C * np.cos(d0) - A * np.sin(d0)  # cos(dec) cos(ra - ra0)
+    dec = np.arctan2(sdec, np.hypot(cs, cc))
+    ra = np.radians(a0) + np.arctan2(cs, cc)
     return np.degrees(ra) % 360.0, np.degrees(dec)
 
 
@@ -67,10 +72,12 @@ def sky2pix(h, ra, dec):
     d = np.radians(np.asarray(dec, dtype=float))
     a0 = np.radians(a0)
     d0 = np.radians(dd0)
-    phip = np.pi
-    phi = phip + np.arctan2(-np.cos(d) * np.sin(a - a0), np.sin(d) * np.cos(d0) - np.cos(d) * np.sin(d0) * np.cos(a - a0))
-    th = np.arcsin(np.clip(np.sin(d) * np.sin(d0) + np.cos(d) * np.cos(d0) * np.cos(a - a0), -1, 1))
-    R = _R_of_theta(proj, th)
+    s = -np.cos(d) * np.sin(a - a0)                                         # cos(theta) sin(phi - phi_p)
+    c = np.sin(d) * np.cos(d0) - np.cos(d) * np.sin(d0) * np.cos(a - a0)    # cos(theta) cos(phi - phi_p)
+    st = np.sin(d) * np.sin(d0) + np.cos(d) * np.cos(d0) * np.cos(a - a0)   # sin(theta)
+    phi = np.pi + np.arctan2(s, c)
+    g = np.arctan2(np.hypot(s, c), st)
+    R = _R_of_colat(proj, g)
     x = np.degrees(R * np.sin(phi))
     y = np.degrees(-R * np.cos(phi))
     return x / d1 + c1, y / d2 + c2
